@@ -183,7 +183,7 @@ def gen_sort_case(rng):
         xs = [sort_scalar(rng, fams[0]) for _ in range(n)]
     else:
         xs = [T(*[sort_scalar(rng, f) for f in fams]) for _ in range(n)]
-    return {'kind': 'sort', 'xs': xs}
+    return {'kind': 'sort', 'xs': xs, 'form': rng.choice(['list', 'list', 'list', 'tuple', 'gen', 'values'])}
 
 
 def run_sort(case, ctx):
@@ -191,7 +191,15 @@ def run_sort(case, ctx):
     xs = codec.dec(case['xs'])
     snap0 = [id(x) for x in xs]
     arg = list(xs)
-    st, res = ctx.call(sort, arg)
+    form = case.get('form', 'list')
+    if form == 'tuple':
+        st, res = ctx.call(sort, tuple(arg))          # any iterable: a tuple, a generator, the values of a dict
+    elif form == 'gen':
+        st, res = ctx.call(sort, (x for x in arg))
+    elif form == 'values':
+        st, res = ctx.call(sort, {i: x for i, x in enumerate(arg)}.values())
+    else:
+        st, res = ctx.call(sort, arg)
     ctx.check('sort_input_unchanged', len(arg) == len(xs) and all(a is b for a, b in zip(arg, xs)) and (st != 'ok' or res is not arg), lambda: 'sort reordered / returned the list it was given')
     if not ctx.check('sort_never_raises', st == 'ok', lambda: 'sort raised %s' % core.exc_str(res)):
         return
